@@ -350,4 +350,19 @@ example :
   · simp only [penalty, condEmit, Kind.default, List.foldl, Expr.defined, Expr.eval, PType.term, pyMax]
     norm_num
 
+/-- `join=and_` / `join=or_` over the two one-line groups `x0 <= 1`, `x0 = x1` at `[0, 3]` (first satisfied, second violated by 3;
+`k' = 100`): `and_` gives `|0 + 900| = 900`, `or_` gives `|min(0, 900)| = 0`; at `[2, 2]` (first violated, second satisfied) likewise;
+at `[2, 3]` both are positive -/
+example :
+    let env : Env Nat ℚ := { ι := fun n => (n : ℚ), tol := 0, rel := 0 }
+    let g1 : List (PType × Expr Nat) := [(.qIneq, .sub (.var 0) (.num 1))]
+    let g2 : List (PType × Expr Nat) := [(.qEq, .sub (.var 0) (.var 1))]
+    penJoin env 100 0 1 .and_ [g1, g2] [0, 3] = some 900 ∧ penJoin env 100 0 1 .or_ [g1, g2] [0, 3] = some 0 ∧
+    penJoin env 100 0 1 .and_ [g1, g2] [2, 2] = some 200 ∧ penJoin env 100 0 1 .or_ [g1, g2] [2, 2] = some 0 ∧
+    penJoin env 100 0 1 .or_ [g1, g2] [2, 3] = some 100 ∧
+    (∀ g ∈ [g1, g2], ∀ te ∈ g, te.2.defined env [0, 3] = true) := by      -- = AllDefined env g [0, 3]
+  refine ⟨?_, ?_, ?_, ?_, ?_, by decide⟩ <;>
+    simp only [penJoin, List.map, penalty, sumL, List.foldl, Expr.defined, Expr.eval, PType.term, pyMax, pyMin, absR] <;>
+    norm_num
+
 end MysticVerif.C14
